@@ -47,6 +47,7 @@ type Recorder struct {
 	Evs   []Ev
 	Fault *FaultSpec
 	Yield func(ev *nutsdb.VerifEvent)
+	Discard bool // only yield, record nothing (concurrent runs)
 }
 
 var (
@@ -101,7 +102,7 @@ func (r *Recorder) on(ev *nutsdb.VerifEvent) *nutsdb.VerifFault {
 	if r.Yield != nil {
 		r.Yield(ev)
 	}
-	if ev.Kind == "read" || ev.Kind == "close" {
+	if ev.Kind == "read" || ev.Kind == "close" || r.Discard {
 		return nil
 	}
 	r.mu.Lock()
